@@ -22,6 +22,8 @@ CHECK = "check"
 TYPES_RS = os.path.join(F.REPO, "dasp_sample", "src", "types.rs")
 TABLE_V = os.path.join(F.COQ, "gen", "TypesTable.v")
 OPNAME = {0: "add", 1: "sub", 2: "mul"}
+HARNESS_TYPES = ["I11", "I20", "I24", "I48", "U11", "U20", "U24", "U48"]   # type order hard-coded in harness/src/bin/c15.rs
+ROWS = []   # rows of the current table (set by main/replay), table index -> name
 
 
 # ---------------------------------------------------------------------------
@@ -73,7 +75,10 @@ def build(item, ops=None):
     it = dict(item)
     if ops is not None:
         it["ops"] = ops
-    it["line"] = f"{it['ty']} ; " + " , ".join(" ".join(str(t) for t in o) for o in it["ops"])
+    name = ROWS[it["ty"]]["name"]
+    if name not in HARNESS_TYPES:
+        raise RuntimeError(f"type {name} of the table is unknown to the harness")
+    it["line"] = f"{HARNESS_TYPES.index(name)} ; " + " , ".join(" ".join(str(t) for t in o) for o in it["ops"])
     it["coq"] = f"TCase {'true' if it['dbg'] else 'false'} {F.zlit(it['ty'])} [" + "; ".join(coq_op(o) for o in it["ops"]) + "]"
     return it
 
@@ -264,12 +269,12 @@ def exhaustive(rep, bins, rows, dist):
     total = 0
     for dbg in (True, False):
         lines, meta = [], []
-        for ty in (0, 4):
+        for ty in [i for i, x in enumerate(rows) if x["name"] in ("I11", "U11")]:
             lo, hi = rows[ty]["min"], rows[ty]["max"]
             for o in (0, 1, 2):
                 step = 32
                 for a in range(lo, hi + 1, step):
-                    lines.append(f"E {ty} {o} {a} {min(hi, a + step - 1)}")
+                    lines.append(f"E {HARNESS_TYPES.index(rows[ty]['name'])} {o} {a} {min(hi, a + step - 1)}")
                     meta.append((ty, o))
         rc, outl, err = F.run_bin_parallel(bins[dbg], lines)
         if rc != 0 or len(outl) != len(lines):
@@ -314,6 +319,7 @@ def main(rep, tier, seed):
             return finish(rep, info, tier, 0, 0, 0, {}, [], [])
         bins[dbg] = path
     table_rows = rows if rows is not None else fallback_rows()
+    ROWS[:] = table_rows
     corpus = load_corpus()
     items = corpus + gen_cases(rng, tier, table_rows)
     # spread the expensive cases over the coqc shards (deterministic shuffle)
@@ -424,6 +430,9 @@ def finish(rep, info, tier, ncases, n, nontriv, dist, samples, bad=0):
 
 def replay(path):
     j = json.load(open(path))
+    rows, terr, _ = regenerate()
+    rows = rows or fallback_rows()
+    ROWS[:] = rows
     it = build(j["case"])
     ok, blog, binpath = F.harness_build("c15", release=not it["dbg"])
     rc, out, _ = F.run_bin(binpath, [it["line"]])
@@ -432,8 +441,6 @@ def replay(path):
     print("implementation:", out)
     print("model:", model)
     o, bad, errs = F.correspond(binpath, [it], HEADER, CHECK, "c15_replay")
-    rows, terr, _ = regenerate()
-    rows = rows or fallback_rows()
     vb = [verdict(rows[it["ty"]], it["dbg"], op, ob) for op, ob in zip(it["ops"], F.norm_obs_line(out[0]) if out else [])]
     vb = [m for m in vb if m]
     for m in vb:
